@@ -295,3 +295,111 @@ def c03_oracle(case, r):
             seen.add(sig)
             out.append((sig, text))
     return out
+
+
+# ---------------------------------------------------------------------------------------------- C02
+def _results_of_report(report):
+    """{location key: result dict}; keys: ('session_setup',), ('session_teardown',), ('suite_setup', path), ..., ('test', path)"""
+    out = {}
+    if report.get("session_setup"):
+        out[("session_setup", "")] = report["session_setup"]
+    if report.get("session_teardown"):
+        out[("session_teardown", "")] = report["session_teardown"]
+
+    def go(s, prefix):
+        path = prefix + s["name"]
+        if s.get("setup"):
+            out[("suite_setup", path)] = s["setup"]
+        if s.get("teardown"):
+            out[("suite_teardown", path)] = s["teardown"]
+        for t in s["tests"]:
+            out[("test", path + "." + t["name"])] = t
+        for sub in s["suites"]:
+            go(sub, path + ".")
+    for s in report["suites"]:
+        go(s, "")
+    return out
+
+
+LOC_NAMES = {0: "session_setup", 1: "session_teardown", 2: "suite_setup", 3: "suite_teardown", 4: "test"}
+TASK_LOC = {"TestTask": "test", "SuiteInitializationTask": "suite_setup", "SuiteTeardownTask": "suite_teardown",
+            "TestSessionSetupTask": "session_setup", "TestSessionTeardownTask": "session_teardown"}
+
+
+def c02_oracle(case, r):
+    hits = []
+    oc = r.get("outcome") or ["?"]
+    rep = r.get("report")
+    if oc[0] != "returned" or rep is None:
+        return hits
+    results = _results_of_report(rep)
+    # failing actions really executed, per location: exceptions raised by user code (trace) and failing logs fired (stream)
+    failing = {}
+    cur, owner = {}, {}
+    body_end = set()
+    for a in r.get("trace") or []:
+        th, op = a[0], a[1]
+        if op == "take":
+            cur[th] = tuple(a[3])
+        elif op == "finish":
+            cur.pop(th, None)
+        elif op == "spawn":
+            owner[a[4]] = cur.get(th, owner.get(th))
+        elif op == "raise":
+            task = cur.get(th, owner.get(th))
+            if task and task[0] in TASK_LOC:
+                failing.setdefault((TASK_LOC[task[0]], task[1]), []).append("raise " + a[3])
+        elif op == "body_end":
+            body_end.add(a[2])
+        elif op == "fire":
+            ev = a[2]
+            loc = next((x for x in ev[1:] if isinstance(x, list) and x and x[0] == "loc"), None)
+            if loc is None:
+                continue
+            key = (LOC_NAMES[loc[1]], loc[2])
+            d = {x[0]: x[1] for x in ev[1:] if isinstance(x, list) and len(x) == 2 and isinstance(x[0], str)}
+            if ev[0] == "log" and d.get("log_level") == "error":
+                failing.setdefault(key, []).append("error log")
+            if ev[0] == "check" and d.get("check_is_successful") is False:
+                failing.setdefault(key, []).append("failed check")
+    for key, res in results.items():
+        st = res["status"]
+        if st in ("skipped", "disabled"):
+            continue
+        has_fail = bool(failing.get(key))
+        if st == "passed" and has_fail:
+            hits.append(("passed-despite-failure", "%s %s is reported passed although %s happened in it" % (key[0], key[1], failing[key][0])))
+        if st == "failed" and not has_fail:
+            hits.append(("failed-without-failure", "%s %s is reported failed although nothing failed in it" % key))
+        if st not in ("passed", "failed"):
+            hits.append(("executed-result-without-verdict", "%s %s ended with status %r" % (key[0], key[1], st)))
+        if st == "passed" and key[0] == "test" and key[1] not in body_end:
+            hits.append(("passed-without-running-to-completion", "test %s is passed but its body did not run to its end" % key[1]))
+        # the status agrees with the logs the report itself holds
+        logs_fail = any((l[0] == "log" and l[1] == "error") or (l[0] == "check" and l[2] is False)
+                        for s in res["steps"] for l in s["logs"])
+        if (st == "failed") != logs_fail:
+            hits.append(("status-disagrees-with-logs", "%s %s: status %s but failing logs in the report: %s" % (key[0], key[1], st, logs_fail)))
+    for key in failing:
+        if key not in results:
+            hits.append(("failure-not-reported", "a failure happened in %s %s but the report has no such result" % key))
+    # the three notions of success agree
+    all_ok = all(res["status"] in ("passed", "disabled") for res in results.values())
+    if bool(rep["is_successful"]) != all_ok:
+        hits.append(("report-success-flag-wrong", "Report.is_successful() is %s but all results passed/disabled is %s" % (rep["is_successful"], all_ok)))
+    if bool(oc[1]) != all_ok:
+        hits.append(("run-return-value-wrong", "the run returned %s but all results passed/disabled is %s" % (oc[1], all_ok)))
+    # session failures = results that failed or were skipped
+    marked = set(r.get("failures") or [])
+    for key, res in results.items():
+        name = {"session_setup": "<ReportLocation session setup>", "session_teardown": "<ReportLocation session teardown>",
+                "suite_setup": "<ReportLocation '%s' suite setup>" % key[1], "suite_teardown": "<ReportLocation '%s' suite teardown>" % key[1],
+                "test": "<ReportLocation '%s' test>" % key[1]}[key[0]]
+        if (name in marked) != (res["status"] in ("failed", "skipped")):
+            hits.append(("session-failures-disagree", "%s: marked failed in the session = %s, status %s" % (name, name in marked, res["status"])))
+    seen, out = set(), []
+    for sig, text in hits:
+        if sig not in seen:
+            seen.add(sig)
+            out.append((sig, text))
+    return out
